@@ -2007,6 +2007,15 @@ fn gen_c03(r: &mut Rng, seed: u64) -> Scenario {
             tags.push("dest-faults".into());
         }
     }
+    if r.chance(1, 5) {
+        // a second request on the same writer: attach / detach cycles repeat, signals sent during the
+        // first request may still be pending during the second
+        if let Workload::Dump(p) = &mut sc.workload {
+            let second = dest_plan(r, false);
+            p.dests.push(second);
+            tags.push("two-requests".into());
+        }
+    }
     sc.events = events;
     sc.faults = faults;
     sc.sched.steps_per_call = r.range(1, 3) as u32;
